@@ -551,6 +551,31 @@ def parse_engine_io(repo, xm):
     return r
 
 
+def model_members(repo):
+    """non-pointer members of struct mjModel_ in mjmodel.h: [(type, name)]"""
+    path = os.path.join(repo, "include", "mujoco", "mjmodel.h")
+    with open(path) as f:
+        text = _strip_comments(f.read())
+    m = re.search(r"struct\s+mjModel_\s*\{(.*?)\n\}\s*mjModel\s*;", text, flags=re.S)
+    if not m:
+        _err(path, "?", "struct mjModel_")
+    out = []
+    for stmt in m.group(1).split(";"):
+        st = " ".join(stmt.split())
+        if not st:
+            continue
+        mm = re.fullmatch(r"([A-Za-z_][\w ]*?)\s*(\**)\s*(%s)" % IDENT, st)
+        if not mm:
+            _err(path, "?", "member declaration '%s' of mjModel" % st[:60])
+        if not mm.group(2):
+            out.append((mm.group(1), mm.group(3)))
+    return out
+
+
+# members of mjModel that are deliberately not part of a file
+NOT_SERIALIZED_OK = {"signature"}   # compilation signature shared with the mjSpec; a loaded model has none
+
+
 # ------------------------------------------------------------------------------------------------
 PRIMES = [101, 103, 107, 109, 113, 127, 131, 137, 139, 149, 151, 157, 163, 167, 173, 179, 181, 191, 193, 197,
           199, 211, 223, 227, 229, 233, 239, 241, 251, 257]
@@ -719,7 +744,9 @@ def translate(repo, run_info):
     out = run_info(info_source(xm, eio))
     info = check_info(xm, eio, out)
     txt, hdr = coq_text(xm, eio, info)
-    meta = {"sizes": xm["sizes"], "arrays": xm["arrays"], "refs": eio["refs"], "reqs": eio["reqs"], "hdr": hdr, "nmake": eio["nmake"],
+    written = set(xm["sizes"]) | {f for f, _ in eio["structs"]}
+    unser = [n for _, n in model_members(repo) if n not in written and n not in NOT_SERIALIZED_OK]
+    meta = {"sizes": xm["sizes"], "arrays": xm["arrays"], "refs": eio["refs"], "reqs": eio["reqs"], "unserialized": unser, "hdr": hdr, "nmake": eio["nmake"],
             "structs": [(f, t, sz) for f, t, sz in info["F"]], "map_idx": eio["map_idx"], "map_mult": eio["map_mult"],
             "map_terms": eio["map_terms"], "exempt": eio["exempt"], "nonzero": eio["nonzero"], "align": eio["align"],
             "mapchk": eio["mapchk"], "ref64": eio["ref64"],
